@@ -31,6 +31,9 @@ def run(chk, repo, tier):
     chk.rule("C01.R2", "_is_valid_privkey accepts exactly the ints in [1, r-1], r the BLS12-381 group order derived from x", 3)
     chk.rule("C01.R3", "KeyGen returns an int in [1, r-1] on every path", 3)
     chk.rule("C01.R4", "Sign/Verify (PopProve/PopVerify) hash the same (message term, tag, hash function)", 4)
+    chk.rule("C01.R6", "Verify/PopVerify reject an honestly produced (PK, message, signature) only on paths guarded by a failed "
+                       "validation predicate (decode, identity, subgroup, on-curve) — no rejection depends on the message or on "
+                       "anything else", 4)
     chk.rule("C01.R5", "the exponent compared with one vanishes identically for honestly produced signatures (formal bilinear domain)", 4)
     chk.not_decided += ["bilinearity of the pairing (C05) — R5 is conditional on it",
                         "that multiply / compression / hash_to_G2 compute what their terms denote (C07, C11, C10)",
@@ -135,6 +138,20 @@ def run(chk, repo, tier):
             if esc:
                 chk.ob("C01.R4", construct, "verify raises on honest input", False,
                        f"{esc[0].value.clsname()} at {esc[0].value.where}", mv.where)
+            # R6: every rejecting path must be justified by a validation predicate that is false only for dishonest input
+            spurious = []
+            for p in v_paths:
+                if p.outcome == "return" and p.value is False:
+                    just = [a for a, t, _ in p.facts if isinstance(a, Term) and (
+                        (a.op == "is_inf" and t) or
+                        (a.op in ("subgroup_check", "pairing_args_on_curve") and not t) or
+                        (a.op.startswith("decodes_") and not t))]
+                    if not just:
+                        spurious.append(p)
+            chk.ob("C01.R6", construct, "no rejection of honest input other than through a validation predicate of the key / signature points",
+                   not spurious, "; ".join(f"returns False on path {' '.join(p.branch_lines()[-3:])} with facts "
+                                           f"{[(show(a)[:60], t) for a, t, _ in p.facts][-2:]}" for p in spurious[:2])
+                   or f"{len(v_paths)} verify paths", mv.where)
             if not acc:
                 chk.ob("C01.R4", construct, "honest signature has an accepting path", False,
                        "Verify has no accepting path on the terms produced by SkToPk/" + sgn, mv.where)
